@@ -200,6 +200,9 @@ Definition spawn (c : M unit) : M unit := fun m =>
   | Stop s m' => Stop s m'
   end.
 
+(* mu.Lock(); c; mu.Unlock() *)
+Definition locked {A} (l : lk) (c : M A) : M A := acquire l ;; r <- c ;; release l ;; ret r.
+
 Fixpoint miter {A} (f : A -> M unit) (l : list A) : M unit :=
   match l with
   | [] => ret tt
@@ -245,59 +248,65 @@ Definition root_node (t : stree) : nat := match t_root t with TM i _ _ => i end.
 
 (* ---- treestorage.go (every method: ts.Lock(); defer ts.Unlock()) ------------------ *)
 
-Definition st_lookup (id : nat) : M (option entry) :=     (* Get / IsRegistered *)
-  acquire LStore ;; access TStore ;; s <- get ;; release LStore ;; ret (lookup id (store s)).
-
-Definition st_get_refresh (id : nat) : M (option entry) := (* getAndRefresh: cancelDeletion; lookup *)
-  acquire LStore ;; access TStore ;;
-  modify (fun s => set_removal s (remove_nat id (removal s))) ;;
-  s <- get ;; release LStore ;; ret (lookup id (store s)).
-
-Definition st_register (id : nat) : M unit :=             (* Register: never overwrites *)
-  acquire LStore ;; access TStore ;;
-  modify (fun s => match lookup id (store s) with
-                   | None => set_store s (update id (Req []) (store s))
-                   | Some _ => s end) ;;
-  release LStore.
-
-Definition st_unregister (id : nat) : M unit :=           (* Unregister: only a nil entry *)
-  acquire LStore ;; access TStore ;;
-  modify (fun s => match lookup id (store s) with
-                   | Some (Req _) => set_store s (delete id (store s))
-                   | _ => s end) ;;
-  release LStore.
-
-Definition st_set (t : stree) : M unit :=                 (* Set: cancelDeletion; store *)
-  acquire LStore ;; access TStore ;;
-  modify (fun s => set_store (set_removal s (remove_nat (t_id t) (removal s)))
-                             (update (t_id t) (Have t) (store s))) ;;
-  release LStore.
-
-(* f72: store a peer's tree only into a requested-but-empty slot *)
-Definition st_set_if_requested (t : stree) : M bool :=
-  acquire LStore ;; access TStore ;;
-  s <- get ;;
-  match lookup (t_id t) (store s) with
-  | Some (Req _) =>
-      modify (fun s => set_store (set_removal s (remove_nat (t_id t) (removal s)))
-                                 (update (t_id t) (Have t) (store s))) ;;
-      release LStore ;; ret true
-  | _ => release LStore ;; ret false
+(* one method of the tree store: a function of the state under the store's mutex;
+   [inr c] = the method panics (the deferred Unlock runs while the panic unwinds) *)
+Definition with_store {A} (f : ostate -> (A * ostate) + crash) : M A :=
+  acquire LStore ;; access TStore ;; s <- get ;;
+  match f s with
+  | inl (a, s') => modify (fun _ => s') ;; release LStore ;; ret a
+  | inr c => panic c
   end.
 
-Definition st_remove (id : nat) : M unit :=               (* Remove: schedule the removal once *)
-  acquire LStore ;; access TStore ;;
-  modify (fun s => if mem_nat id (removal s) then s else set_removal s (id :: removal s)) ;;
-  release LStore.
+(* Get / IsRegistered *)
+Definition sf_lookup (id : nat) (s : ostate) : (option entry * ostate) + crash :=
+  inl (lookup id (store s), s).
+Definition st_lookup (id : nat) : M (option entry) := with_store (sf_lookup id).
 
-(* f71 bookkeeping: peers a tree was requested from *)
-Definition st_note_asked (id : nat) (p : peer) (add : bool) : M unit :=
-  acquire LStore ;; access TStore ;;
-  modify (fun s => match lookup id (store s) with
-                   | Some (Req asked) =>
-                       set_store s (update id (Req (if add then p :: asked else remove_nat p asked)) (store s))
-                   | _ => s end) ;;
-  release LStore.
+(* getAndRefresh: cancelDeletion; lookup *)
+Definition sf_get_refresh (id : nat) (s : ostate) : (option entry * ostate) + crash :=
+  inl (lookup id (store s), set_removal s (remove_nat id (removal s))).
+Definition st_get_refresh (id : nat) : M (option entry) := with_store (sf_get_refresh id).
+
+(* Register: never overwrites *)
+Definition sf_register (id : nat) (s : ostate) : (unit * ostate) + crash :=
+  inl (tt, match lookup id (store s) with
+           | None => set_store s (update id (Req []) (store s))
+           | Some _ => s end).
+Definition st_register (id : nat) : M unit := with_store (sf_register id).
+
+(* Unregister: only a nil entry *)
+Definition sf_unregister (id : nat) (s : ostate) : (unit * ostate) + crash :=
+  inl (tt, match lookup id (store s) with
+           | Some (Req _) => set_store s (delete id (store s))
+           | _ => s end).
+Definition st_unregister (id : nat) : M unit := with_store (sf_unregister id).
+
+(* Set: cancelDeletion; store *)
+Definition put_tree (t : stree) (s : ostate) : ostate :=
+  set_store (set_removal s (remove_nat (t_id t) (removal s))) (update (t_id t) (Have t) (store s)).
+Definition sf_set (t : stree) (s : ostate) : (unit * ostate) + crash := inl (tt, put_tree t s).
+Definition st_set (t : stree) : M unit := with_store (sf_set t).
+
+(* f72, SetIfAbsent: store a peer's tree unless a tree is stored under that id *)
+Definition sf_set_if_absent (t : stree) (s : ostate) : (bool * ostate) + crash :=
+  match lookup (t_id t) (store s) with
+  | Some (Have _) => inl (false, s)
+  | _ => inl (true, put_tree t s)
+  end.
+Definition st_set_if_absent (t : stree) : M bool := with_store (sf_set_if_absent t).
+
+(* Remove: schedule the removal once *)
+Definition sf_remove (id : nat) (s : ostate) : (unit * ostate) + crash :=
+  inl (tt, if mem_nat id (removal s) then s else set_removal s (id :: removal s)).
+Definition st_remove (id : nat) : M unit := with_store (sf_remove id).
+
+(* f71 bookkeeping (noteAsked / forgetAsked): peers a tree was requested from *)
+Definition sf_note_asked (id : nat) (p : peer) (add : bool) (s : ostate) : (unit * ostate) + crash :=
+  inl (tt, match lookup id (store s) with
+           | Some (Req asked) =>
+               set_store s (update id (Req (if add then p :: asked else remove_nat p asked)) (store s))
+           | _ => s end).
+Definition st_note_asked (id : nat) (p : peer) (add : bool) : M unit := with_store (sf_note_asked id p add).
 
 Definition is_req (ie : nat * entry) : bool := match snd ie with Req _ => true | Have _ => false end.
 Definition has_roster (rid : nat) (ie : nat * entry) : bool :=
@@ -305,15 +314,15 @@ Definition has_roster (rid : nat) (ie : nat * entry) : bool :=
 
 (* GetRoster: ranges over the map (Go: random order). [nil_first] is the order
    oracle: a nil entry is visited before the first matching tree. *)
-Definition st_get_roster (fx : fixes) (rid : nat) (nil_first : bool) : M (option roster) :=
-  acquire LStore ;; access TStore ;;
-  s <- get ;;
+Definition sf_get_roster (fx : fixes) (rid : nat) (nil_first : bool) (s : ostate) : (option roster * ostate) + crash :=
   let found := match find (has_roster rid) (store s) with
                | Some (_, Have t) => Some (t_roster t) | _ => None end in
-  if f07 fx then release LStore ;; ret found
+  if f07 fx then inl (found, s)
   else if existsb is_req (store s) && (match found with None => true | Some _ => nil_first end)
-       then panic CNilTreeInStore
-       else release LStore ;; ret found.
+       then inr CNilTreeInStore
+       else inl (found, s).
+Definition st_get_roster (fx : fixes) (rid : nat) (nil_first : bool) : M (option roster) :=
+  with_store (sf_get_roster fx rid nil_first).
 
 (* ---- treenode.go: the instance's reader goroutine -------------------------------- *)
 
@@ -360,36 +369,35 @@ Definition node_delete (k : token) : M unit :=
 (* TransmitMsg after the tree was found *)
 Definition deliver_hit (pm : pmsg) (t : stree) : M unit :=
   let k := p_to pm in
-  acquire LTransmit ;;                                        (* defer Unlock *)
-  acquire LInst ;; access TInst ;; s <- get ;; release LInst ;;
-  (if mem_tok k (finished s) then
-     acquire LInst ;; clean_tree_storage k ;; release LInst
-   else if mem_tok k (insts s) then
-     spawn (dispatch k (p_peer pm) (p_from pm) (p_body pm))   (* ProcessProtocolMsg *)
-   else
-     match search t (tk_node k) with
-     | None => ret tt                                         (* No TreeNode defined in this tree here *)
-     | Some _ =>
-         (* newTreeNodeInstanceFromToken *)
-         acquire LInst ;; access TInst ;; modify (fun s => set_insts s (k :: insts s)) ;; release LInst ;;
-         (* getConfig *)
-         acquire LConf ;; access TConf ;; modify (fun s => set_configs s (remove_tok k (configs s))) ;; release LConf ;;
-         if proto_known (tk_proto k) then
-           (* RegisterProtocolInstance *)
-           acquire LInst ;; access TInst ;; release LInst ;;
-           spawn (dispatch k (p_peer pm) (p_from pm) (p_body pm))
-         else
-           (* newProtocol failed *)
-           acquire LInst ;; node_delete k ;; release LInst
-     end) ;;
-  release LTransmit.
+  locked LTransmit (                                          (* defer Unlock *)
+    s <- locked LInst (access TInst ;; get) ;;
+    if mem_tok k (finished s) then
+      locked LInst (clean_tree_storage k)
+    else if mem_tok k (insts s) then
+      spawn (dispatch k (p_peer pm) (p_from pm) (p_body pm))  (* ProcessProtocolMsg *)
+    else
+      match search t (tk_node k) with
+      | None => ret tt                                        (* No TreeNode defined in this tree here *)
+      | Some _ =>
+          (* newTreeNodeInstanceFromToken *)
+          locked LInst (access TInst ;; modify (fun s => set_insts s (k :: insts s))) ;;
+          (* getConfig *)
+          locked LConf (access TConf ;; modify (fun s => set_configs s (remove_tok k (configs s)))) ;;
+          if proto_known (tk_proto k) then
+            (* RegisterProtocolInstance *)
+            locked LInst (access TInst) ;;
+            spawn (dispatch k (p_peer pm) (p_from pm) (p_body pm))
+          else
+            (* newProtocol failed *)
+            locked LInst (node_delete k)
+      end).
 
 (* requestTree. The re-check added by repair F01 (tree arrived between the miss and
    the parking) cannot succeed in a sequential run: the same goroutine has just seen
    the tree absent; that branch is C01's subject. *)
 Definition request_tree (fx : fixes) (pm : pmsg) : M unit :=
   let id := tk_tree (p_to pm) in
-  acquire LPMsg ;; access TParked ;; modify (fun s => set_parked s (parked s ++ [pm])) ;; release LPMsg ;;
+  locked LPMsg (access TParked ;; modify (fun s => set_parked s (parked s ++ [pm]))) ;;
   e <- st_lookup id ;;                                        (* IsRegistered *)
   match e with
   | Some (Have _) => ret tt
@@ -420,11 +428,10 @@ Definition transmit (fx : fixes) (sender : peer) (from to : option token) (b : b
 
 (* checkPendingMessages: the flush goroutine *)
 Definition flush (fx : fixes) (t : stree) : M unit :=
-  acquire LPMsg ;; access TParked ;;
-  s <- get ;;
-  let mine := filter (fun pm => tk_tree (p_to pm) =? t_id t) (parked s) in
-  modify (fun s => set_parked s (filter (fun pm => negb (tk_tree (p_to pm) =? t_id t)) (parked s))) ;;
-  release LPMsg ;;
+  mine <- locked LPMsg (
+            access TParked ;; s <- get ;;
+            modify (fun s => set_parked s (filter (fun pm => negb (tk_tree (p_to pm) =? t_id t)) (parked s))) ;;
+            ret (filter (fun pm => tk_tree (p_to pm) =? t_id t) (parked s))) ;;
   miter (fun pm => transmit fx (p_peer pm) (p_from pm) (Some (p_to pm)) (p_body pm)) mine.
 
 (* RegisterTree *)
@@ -434,7 +441,7 @@ Definition register_tree (fx : fixes) (t : stree) : M unit :=
 (* a tree that came from a peer *)
 Definition store_peer_tree (fx : fixes) (t : stree) : M unit :=
   if f72 fx then
-    ok <- st_set_if_requested t ;;
+    ok <- st_set_if_absent t ;;
     if ok then spawn (flush fx t) else ret tt
   else register_tree fx t.
 
@@ -486,15 +493,13 @@ Definition handle_send_tree_marshal (fx : fixes) (p : peer) (tm : tmarshal) : M 
   match e with
   | None => ret tt
   | Some _ =>
-      (if f26 fx then acquire LInst else ret tt) ;;
-      access TInst ;; s <- get ;;
-      oro <- scan_rosters (tm_roster tm) (insts s) None ;;
-      (if f26 fx then release LInst else ret tt) ;;
+      oro <- (let scan := access TInst ;; s <- get ;; scan_rosters (tm_roster tm) (insts s) None in
+              if f26 fx then locked LInst scan else scan) ;;
       match oro with
       | None =>
           send p (RReqRoster (tm_roster tm)) ;;
           (* addPendingTreeMarshal *)
-          acquire LPTree ;; access TPTM ;; modify (fun s => set_ptm s (ptm s ++ [tm])) ;; release LPTree
+          locked LPTree (access TPTM ;; modify (fun s => set_ptm s (ptm s ++ [tm])))
       | Some ro => handle_send_tree fx (Some tm) (Some ro)
       end
   end.
@@ -522,9 +527,9 @@ Definition handle_send_roster (fx : fixes) (ro : roster) : M unit :=
   if ro_id ro =? 0 then ret tt else check_pending_tm fx ro.
 
 Definition handle_config (dest : option token) : M unit :=
-  acquire LConf ;; access TConf ;;
-  modify (fun s => match dest with Some k => set_configs s (k :: remove_tok k (configs s)) | None => s end) ;;
-  release LConf.
+  locked LConf (
+    access TConf ;;
+    modify (fun s => match dest with Some k => set_configs s (k :: remove_tok k (configs s)) | None => s end)).
 
 (* Overlay.Process. [cfgtype]: the envelope's MsgType is ConfigMsgID (through a
    connection this is the case exactly for MConfig). *)
@@ -557,7 +562,7 @@ Definition run_op (fx : fixes) (o : op) : M unit :=
   match o with
   | Recv p c nf m => process fx p c nf m
   | LocalTree t => register_tree fx t
-  | LocalDone k => acquire LInst ;; node_delete k ;; release LInst
+  | LocalDone k => locked LInst (node_delete k)
   end.
 
 Inductive outcome := Ok | Crashed (c : crash) | Wedged (l : lk).
